@@ -188,6 +188,47 @@ Section FmtProofs.
       /\ (open_file ErrorIfExists f old = match old with Some _ => Err "file exists" | None => Ok (header_of f) end)
       /\ (open_file Append f old = Ok (match old with Some c => c | None => header_of f end)).
   Proof. intros f [c|]; repeat split; reflexivity. Qed.
+  (* ---------- the model's cell meets the specification of a cell ---------- *)
+  Lemma traverse_spec : forall path cur whole,
+      to_opt (traverse cur path whole) = spec_lookup cur path.
+  Proof.
+    induction path as [|k rest IH]; intros cur whole; simpl; [reflexivity|].
+    unfold jget. destruct cur; try reflexivity. destruct (oget m k); [apply IH|reflexivity].
+  Qed.
+  Lemma all_some_results : forall rs : list mres,
+      all_some (map to_opt rs) = match errs rs with [] => Some (oks rs) | _ => None end.
+  Proof.
+    induction rs as [|x rs IH]; simpl; [reflexivity|]. destruct x as [v|msg]; simpl; [|reflexivity].
+    rewrite IH. unfold errs, oks in *. simpl. destruct (flat_map _ rs); reflexivity.
+  Qed.
+  Lemma all_some_nums : forall vs : list json,
+      all_some (map (spec_num fo) vs)
+      = match rights (map (num_of fj fo) vs) with [] => Some (lefts (map (num_of fj fo) vs)) | _ => None end.
+  Proof.
+    induction vs as [|v vs IH]; simpl; [reflexivity|].
+    destruct v; simpl; try reflexivity; rewrite IH; unfold rights, lefts in *; simpl;
+      destruct (flat_map _ (map (num_of fj fo) vs)); reflexivity.
+  Qed.
+
+  (* For every mapping and every response the value the model (= the code, by the fmt stream)
+     selects is the specified one: literal object keys, Sum / Optional as documented; the cell
+     fails exactly when the specification says so. *)
+  Theorem apply_mapping_meets_spec : forall m r, to_opt (apply_mapping m r) = spec_value fo m r.
+  Proof.
+    fix IH 1. intros m r. destruct m as [p|l|x].
+    - simpl. apply traverse_spec.
+    - cbn [apply_mapping spec_value].
+      assert (E : map (fun x => spec_value fo x r) l = map to_opt (map (fun x => apply_mapping x r) l)).
+      { rewrite map_map. revert l. fix IHl 1. intros [|x l]; [reflexivity|]. simpl. rewrite <- (IH x r), <- IHl. reflexivity. }
+      rewrite E, all_some_results. unfold sum_results.
+      destruct (errs (map (fun x => apply_mapping x r) l)); [|reflexivity].
+      rewrite all_some_nums. destruct (rights _); reflexivity.
+    - cbn [apply_mapping spec_value]. rewrite <- (IH x r). destruct (apply_mapping x r); reflexivity.
+  Qed.
+  Corollary cell_value_meets_spec : forall m r, cell_value fj (apply_mapping m r) = spec_cell fj fo m r.
+  Proof.
+    intros m r. unfold spec_cell. rewrite <- apply_mapping_meets_spec. destruct (apply_mapping m r); reflexivity.
+  Qed.
 End FmtProofs.
 
 (* ---------- a JSON-lines record is one line ---------- *)
